@@ -4,9 +4,11 @@ line (harness/src/simt.rs).  One endpoint = a bounded sink (`buffered`, capacity
 flushed onto `wire`, plus an inbound queue.  Readiness is either *coupled* to flushing
 (socket-like: ready iff the buffer has room; flushing may be blocked) or *independent*
 (bounded-queue-like: ready iff `readyOpen` and room; flush always completes).  It honours the
-`Sink` contract: whenever readiness is restored — by an external grant or by the owner's own flush —
-it wakes the waker a previous `poll_ready → Pending` registered.  It records contract violations
-by its owner (C14) instead of misbehaving.
+`Sink` contract: whenever readiness is restored by an external grant it wakes the waker a previous
+`poll_ready → Pending` registered; when the owner's *own* flush restores it, it does so too unless
+`selfWake` is off (a staging sink: its room is made by `poll_flush`, which only the owner calls, so it
+relies on the owner re-polling readiness).  An armed fault fails the `(faultSkip+1)`-th call of its kind.
+It records contract violations by its owner (C14) instead of misbehaving.
 -/
 namespace TarpcModel
 
@@ -60,6 +62,8 @@ structure SimT where
   faultFlush : Bool := false
   faultClose : Bool := false
   faultNext  : Bool := false
+  faultSkip  : Nat := 0               -- calls of an armed kind still to be let through before it fails (the k-th call fails)
+  selfWake   : Bool := true           -- the owner's own flush wakes a waker it registered in `poll_ready` (staging sinks do not)
   closed    : Bool := false           -- `poll_close` returned `Ready(Ok)`
   failed    : Bool := false           -- a ready / flush / close error was reported
   gotReady  : Bool := false           -- `poll_ready → Ready(Ok)` since the last `start_send`
@@ -80,30 +84,42 @@ def useAfter (t : SimT) (what : String) : SimT :=
   else if t.closed then t.violate (what ++ "-after-close")
   else t
 
+/-- An armed fault fires at this call iff no calls remain to be let through. -/
+def fires (t : SimT) (armed : Bool) : Bool := armed && t.faultSkip == 0
+
+/-- A call of an armed kind that is let through uses up one skip. -/
+def letThrough (t : SimT) (armed : Bool) : SimT := if armed then { t with faultSkip := t.faultSkip - 1 } else t
+
 /-- Each operation returns the new transport, its result and whether the *owner's* waker was woken
 (only the owner's own flush can do that synchronously). -/
 def pollReady (t : SimT) : SimT × PollRes × Bool :=
   let t := t.useAfter "ready"
-  if t.faultReady then ({ t with faultReady := false, failed := true }, .err, false)
-  else if t.isReadyNow then ({ t with gotReady := true }, .ready, false)
+  if t.fires t.faultReady then ({ t with faultReady := false, failed := true }, .err, false)
+  else
+  let t := t.letThrough t.faultReady
+  if t.isReadyNow then ({ t with gotReady := true }, .ready, false)
   else ({ t with writeWaker := true }, .pending, false)
 
 def startSend (t : SimT) (m : Msg) : SimT × Bool :=     -- `true` = Ok
   let t := t.useAfter "send"
   let t := if t.gotReady then t else t.violate "send-without-ready"
-  if t.faultSend then ({ t with faultSend := false, gotReady := false }, false)
-  else ({ t with buffered := t.buffered ++ [m], sentLog := t.sentLog ++ [m], gotReady := false }, true)
+  if t.fires t.faultSend then ({ t with faultSend := false, gotReady := false }, false)
+  else
+  let t := t.letThrough t.faultSend
+  ({ t with buffered := t.buffered ++ [m], sentLog := t.sentLog ++ [m], gotReady := false }, true)
 
 /-- Moves everything buffered onto the wire; wakes a registered write waker if that restores
 readiness. -/
 def drain (t : SimT) : SimT × Bool :=
   let t' := { t with wire := t.wire ++ t.buffered, buffered := [] }
-  if t.writeWaker && t'.isReadyNow then ({ t' with writeWaker := false }, true) else (t', false)
+  if t.writeWaker && t'.isReadyNow && t.selfWake then ({ t' with writeWaker := false }, true) else (t', false)
 
 def pollFlush (t : SimT) : SimT × PollRes × Bool :=
   let t := t.useAfter "flush"
-  if t.faultFlush then ({ t with faultFlush := false, failed := true }, .err, false)
-  else if t.coupled && !t.flushOpen && !t.buffered.isEmpty then
+  if t.fires t.faultFlush then ({ t with faultFlush := false, failed := true }, .err, false)
+  else
+  let t := t.letThrough t.faultFlush
+  if t.coupled && !t.flushOpen && !t.buffered.isEmpty then
     ({ t with writeWaker := true }, .pending, false)
   else
     let (t, w) := t.drain
@@ -111,16 +127,20 @@ def pollFlush (t : SimT) : SimT × PollRes × Bool :=
 
 def pollClose (t : SimT) : SimT × PollRes × Bool :=
   let t := t.useAfter "close"
-  if t.faultClose then ({ t with faultClose := false, failed := true }, .err, false)
-  else if t.coupled && !t.flushOpen && !t.buffered.isEmpty then
+  if t.fires t.faultClose then ({ t with faultClose := false, failed := true }, .err, false)
+  else
+  let t := t.letThrough t.faultClose
+  if t.coupled && !t.flushOpen && !t.buffered.isEmpty then
     ({ t with writeWaker := true }, .pending, false)
   else
     let (t, w) := t.drain
     ({ t with closed := true }, .ready, w)
 
 def pollNext (t : SimT) : SimT × NextRes :=
-  if t.faultNext then ({ t with faultNext := false }, .err)
-  else match t.inbound with
+  if t.fires t.faultNext then ({ t with faultNext := false }, .err)
+  else
+  let t := t.letThrough t.faultNext
+  match t.inbound with
     | .msg m :: rest => ({ t with inbound := rest }, .item m)
     | .err :: rest => ({ t with inbound := rest }, .err)
     | [] => if t.eof then (t, .eof) else ({ t with readWaker := true }, .pending)
